@@ -399,8 +399,9 @@ func main() {
 		}
 	}
 	if overflow {
-		w.Flush()
-		fmt.Fprintln(os.Stderr, "int64 overflow in a fold: the generator bound maxLen is wrong")
-		os.Exit(3)
+		// with the sequences the scripts build (at most maxLen elements) no fold overflows; a library that makes
+		// sequences longer than they should be can get here: the fold is then reported as 0 and judged like any
+		// other answer (the model computes in Z), the harness itself does not fail
+		fmt.Fprintln(os.Stderr, "note: int64 overflow in a fold (reported as 0)")
 	}
 }
